@@ -738,6 +738,9 @@ func (a *adversary) playEquivocate(w *world, id string) {
 
 // idSpelling returns another string that a normalising reader could take for id.
 func idSpelling(id string, k int) string {
+	if id == "" {
+		return "/"
+	}
 	switch k % 6 {
 	case 0:
 		return id + "/"
